@@ -472,7 +472,11 @@ func GenFloat(t *rapid.T, cfg Cfg) V {
 	}
 }
 
+// (the second line: characters that text encoders are known to treat specially - HTML-sensitive ones that
+// encoding/json escapes, line separators U+2028/2029, control characters, DEL, BOM, leading / trailing blanks,
+// quotes, a lone combining mark, the replacement character itself)
 var strPool = []string{"", "a", "b", "abc", "foo", "foobar", "héllo", "日本語", "Alice", "bob@example.com", "x y", "0", "null", "a*b", `back\slash`, "🙂",
+	"<a href=\"x\">&amp;</a>", "a\u2028b\u2029c", "tab\there", "nul\x00byte", "\x01\x1f\x7f", "\ufeffbom", " lead", "trail ", "quo\"te'", "\u0301", "\ufffd", "line\nbreak\r\n", "{\"/\":\"x\"}", "/", "~0~1",
 	"the quick brown fox jumps over the lazy dög", "0123456789012345678901234567890123456789éé", "ééééééééééééééééééééééééééééééééé ascii tail after thirty-three runes"}
 
 func GenStr(t *rapid.T) V {
